@@ -554,6 +554,11 @@ extern "C" {
 }
 
 pub fn run(sh: &mut Shard) {
+    // part B (Debug Adapter Protocol boundary, engines/c17dap.rs) runs on every fourth shard
+    if sh.args.replay.is_none() && sh.args.shard % 4 == 3 {
+        crate::engines::c17dap::run(sh);
+        return;
+    }
     // the product's tracer also echoes every line to stderr: send that to /dev/null, the file is what is read
     if let Ok(f) = std::fs::OpenOptions::new().write(true).open("/dev/null") {
         use std::os::unix::io::AsRawFd;
@@ -581,6 +586,11 @@ pub fn run(sh: &mut Shard) {
         let v: J = serde_json::from_str(&std::fs::read_to_string(path).expect("replay")).expect("json");
         let r = if v.get("replay").is_some() { v["replay"].clone() } else { v };
         let r = if r.get("case").is_some() { r["case"].clone() } else { r };
+        if r.get("dap").is_some() {
+            crate::engines::c17dap::replay(sh, &r);
+            let _ = std::fs::remove_file(&trace_path);
+            return;
+        }
         let script = parse_script(&r["script"]);
         let cycles = (r["cycles"].as_u64().unwrap_or(4) as usize).clamp(1, MAX_CYCLES);
         // schedules vary: repeat the script
